@@ -162,6 +162,8 @@ pub struct Fixture {
     pub pcm: Pcm,
     pub bytes: Vec<u8>,
     pub shape: TableShape,
+    /// STREAMINFO's total-samples field is 0 (length unknown, as in a pipe-encoded file)
+    pub total_unknown: bool,
 }
 
 /// a finished file with the requested seek-table shape, built on perfect in-memory I/O
@@ -260,7 +262,7 @@ pub fn make_fixture(ch: &Choices, seekable: bool) -> Option<Fixture> {
         bytes = if r { rebuilt } else { orig.into_inner() };
         probe("c06_table_with_placeholders");
     }
-    Some(Fixture { cfg, pcm, bytes, shape })
+    Some(Fixture { cfg, pcm, bytes, shape, total_unknown: false })
 }
 
 /// a finished file that did not come from the crate's encoder: generator-made frames (refflac's frame
@@ -379,6 +381,12 @@ pub fn make_foreign_fixture_sized(ch: &Choices, seekable: bool, small: bool) -> 
         pos += *n as u64;
     }
     let total = pos;
+    // the length may be unknown to the header (a stream encoded to a pipe): everything but end-relative
+    // seeks must still work
+    let total_unknown = !small && ch.draw("rdg.total.unknown", 5) == 4;
+    if total_unknown {
+        probe("rd_total_samples_unknown");
+    }
     let pcm = Pcm { channels, bps, frames: total as usize, inter };
     let body = &sizes[..sizes.len() - 1];
     let (minb, maxb) = if variable {
@@ -394,7 +402,7 @@ pub fn make_foreign_fixture_sized(ch: &Choices, seekable: bool, small: bool) -> 
         sample_rate: rate,
         channels: std::num::NonZero::new(channels as u8).unwrap(),
         bits_per_sample: bps.try_into().ok()?,
-        total_samples: std::num::NonZero::new(total),
+        total_samples: if total_unknown { None } else { std::num::NonZero::new(total) },
         md5: Some(refflac::pcm_md5(&pcm.inter, bps)),
     };
     let shape = if seekable {
@@ -463,7 +471,8 @@ pub fn make_foreign_fixture_sized(ch: &Choices, seekable: bool, small: bool) -> 
     cfg.block = base as u16;
     cfg.declare_total = true;
     cfg.offset = 0;
-    Some(Fixture { cfg, pcm, bytes, shape })
+    cfg.declare_total = !total_unknown;
+    Some(Fixture { cfg, pcm, bytes, shape, total_unknown })
 }
 
 fn open_front<'a>(front: Front, src: Src<SimFile>, c: usize) -> Result<Box<dyn Rd + 'a>, String> {
@@ -535,7 +544,7 @@ fn run_history(ctx: &mut Ctx, with_seeks: bool, foreign: bool) -> R {
         drive_iter(ctx, &ch, src, &model)
     } else {
         match open_front(front, src, c) {
-            Ok(mut rd) => drive(ctx, &ch, &mut *rd, front, &model, unit, fx.cfg.block as usize, with_seeks),
+            Ok(mut rd) => drive(ctx, &ch, &mut *rd, front, &model, unit, fx.cfg.block as usize, with_seeks, !fx.total_unknown),
             Err(e) => viol("delivery-mismatch", format!("cannot open a valid file: {e}")),
         }
     };
@@ -590,7 +599,7 @@ fn drive_iter(ctx: &mut Ctx, ch: &Choices, src: Src<SimFile>, model: &[i32]) -> 
 }
 
 /// drives a history against the model; returns the first discrepancy
-fn drive(ctx: &mut Ctx, ch: &Choices, rd: &mut dyn Rd, front: Front, model: &[i32], unit: usize, block: usize, with_seeks: bool) -> R {
+fn drive(ctx: &mut Ctx, ch: &Choices, rd: &mut dyn Rd, front: Front, model: &[i32], unit: usize, block: usize, with_seeks: bool, total_known: bool) -> R {
     let is_byte = matches!(front, Front::ByteLE | Front::ByteBE);
     let frame_items = unit * block;
     let mut cur: usize = 0;
@@ -858,6 +867,11 @@ fn drive(ctx: &mut Ctx, ch: &Choices, rd: &mut dyn Rd, front: Front, model: &[i3
                             "seek-beyond-end-ok",
                             format!("seek {req:?} to item {target} of a {len}-item stream returned Ok({ret:?}); requests beyond the end must fail"),
                         );
+                    }
+                    (Err(_), true) if !total_known && matches!(req, SeekReq::End(_)) => {
+                        // the header does not say where the end is: an end-relative request cannot be served
+                        probe("c06_end_relative_seek_refused_for_unknown_length");
+                        pos_known = false;
                     }
                     (Err(e), true) => {
                         return viol("seek-misplaced", format!("seek {req:?} to item {target} (stream has {len}) failed: {e}"));
